@@ -299,7 +299,18 @@ def near_miss_script(rng, rate):
             flipped.add((rng.below(4), rng.below(7)))
         for i, b in flipped:
             bad[i] ^= 1 << b
-        return "prefix-3+-bit-errors", "S0.3," + ",".join("B%s,S1" % burst_hex(bytes(bad) + H[4:]) for _ in range(3)) + ",S2"
+        if rng.chance(1, 2):
+            return "prefix-3+-bit-errors", "S0.3," + ",".join("B%s,S1" % burst_hex(bytes(bad) + H[4:]) for _ in range(3)) + ",S2"
+        # each burst with its OWN three or four wrong prefix bits: no burst is a SAME burst, although a vote over them would be
+        bursts = []
+        for _ in range(3):
+            b = bytearray(b"ZCZC"); fl = set()
+            while len(fl) < 3 + rng.below(2):
+                fl.add((rng.below(4), rng.below(7)))
+            for i, bit in fl:
+                b[i] ^= 1 << bit
+            bursts.append(bytes(b) + H[4:])
+        return "prefix-3+-bit-errors-each-different", "S0.3," + ",".join("B%s,S1" % burst_hex(x) for x in bursts) + ",S2"
     if k == 3:
         return "preamble-only", "S0.3," + ",".join("B%s,S1" % hx(b"\xab" * rng.range(16, 60)) for _ in range(3)) + ",S2"
     if k == 4:
@@ -351,3 +362,48 @@ def run_f9_witness(ctx, pid):
     if hit and kd[0]["line"] not in ctx.known:
         ctx.known.append(kd[0]["line"])
     return hit
+
+
+def reset_reuse(ctx, rng, n, keep, strip_time, what):
+    """Using one receiver across a reset(): a transmission cut at a chosen point -- in the middle of the data of a burst, a few
+    symbols before a burst ends, in the preamble, in the hold period after the last header burst, between bursts -- then reset(),
+    then the rest of the audio, which contains a complete second transmission; compared with a newly built receiver on the same
+    rest.  Only the events this property is about are compared (`keep`), with or without their timestamps."""
+    import samegen
+    behav = []
+    for j in range(n):
+        rate = rng.choice(STD_RATES)
+        tx = Tx(rng, rate=rate, gap_ht=rng.choice([1.0, 2.5]), H=samegen.gen_header(rng, nloc=rng.choice([1, 2, 5])), tail=1.6, impaired=False)
+        follow = Tx(rng, rate=rate, gap_ht=1.0, H=samegen.gen_header(rng, nloc=1), tail=1.6, lead=rng.choice([0.05, 0.3]), impaired=False)
+        follow.amp, follow.dc, follow.phase, follow.frac, follow.baud, follow.snr = tx.amp, tx.dc, tx.phase, tx.frac, tx.baud, tx.snr
+        script = ",".join(tx.segments() + follow.segments())
+        ends = tx.burst_end_samples()
+        sym = rate / 520.83
+        pts = []
+        for i, e in ends.items():
+            nbytes = len(tx.H) if i < 3 else 4
+            pts += [int(e - nbytes * 4 * sym), int(e - 3 * sym), int(e - (nbytes + 8) * 8 * sym), int(e + 0.5 * rate)]
+        pts.append(int(ends[max(k for k in ends if k < 3)] + 0.9 * rate))
+        rng2 = rng.fork("pts%d" % j)
+        for k in [pts[rng2.below(len(pts))] for _ in range(6)] + [int(ends[0] - len(tx.H) * 4 * sym), int(ends[2] - 3 * sym)]:
+            k = max(0, k)
+            base = tx.line(script=script)
+            behav.append(({"rate": rate, "reset_at": k}, base + " reset_at=%d" % k, base + " skip=%d" % k))
+    lines = []
+    for _, a, b in behav:
+        lines += [a, b]
+    res = run_rx(lines, check_model=False)
+    ok = 0
+    proj = lambda s: [(t.split("@")[0] if strip_time else t) for t in s.split(";") if keep(t)]
+    for i, (desc, a, b) in enumerate(behav):
+        ra, rb = res[2 * i], res[2 * i + 1]
+        if ra.get("error") or rb.get("error"):
+            ctx.violation("harness-failure", (ra.get("error") or rb.get("error"))[:200], {"input": a}); continue
+        pa, pb = proj(ra["impl"]), proj(rb["impl"])
+        if pa != pb:
+            ctx.violation("property", "a receiver reused after reset() reports different %s than a newly built one on the same audio: %s vs %s [%s]"
+                          % (what, [x[:40] for x in pa][:6], [x[:40] for x in pb][:6], desc),
+                          {"input": a, "fresh_input": b, "reset_events": ra["impl"][:1500], "fresh_events": rb["impl"][:1500]})
+        else:
+            ok += 1
+    return ok
